@@ -220,7 +220,7 @@ struct PoolImage {
 fn gen_image(src: &mut Src, prev: Option<&PoolImage>) -> PoolImage {
     let h = 6 + src.draw(35) as usize;
     let w = 1 + src.draw(40) as usize;
-    let kind = src.draw(5);
+    let kind = src.draw(6);
     let palette: Vec<RGBA> = (0..1 + src.draw(6)).map(|i| RGBA::new((i * 50 + src.draw(40)) as u8, (200 - i * 30) as u8, src.draw(256) as u8, 255)).collect();
     let transparent = src.chance(1, 4);
     let seed = src.draw(1 << 16);
@@ -244,6 +244,19 @@ fn gen_image(src: &mut Src, prev: Option<&PoolImage>) -> PoolImage {
         2 => {
             let data: Vec<RGBA> = (0..h * w).map(|i| many(i / w, i % w)).collect();
             PoolImage { image: Image::from_parts(data.into(), Shape::from(Size::new(h, w))), class: "many-colours", few_colours: h * w <= 256 }
+        }
+        5 => {
+            // exactly n distinct colours at 0-100 resolution, around the palette size
+            let n = *src.pick(&[256usize, 255, 257, 64, 2]);
+            let (h, w) = (18usize, 15 + src.draw(6) as usize);
+            let data: Vec<RGBA> = (0..h * w)
+                .map(|i| {
+                    let k = (i * 7 + seed as usize) % n;
+                    // channel values that stay distinct after scaling to 0..100
+                    RGBA::new(((k % 17) as f32 * 6.0 * 2.55).round() as u8, ((k / 17) as f32 * 6.0 * 2.55).round() as u8, 77, 255)
+                })
+                .collect();
+            PoolImage { image: Image::from_parts(data.into(), Shape::from(Size::new(h, w))), class: "n-colours-around-palette-size", few_colours: n <= 256 }
         }
         3 => {
             // cropped view of a larger few-colour image
